@@ -108,6 +108,7 @@ fn scenarios(thorough: bool) -> Vec<Sc> {
         pg_event: pg,
         busy_sup: false,
         sup_drains: false,
+        stale_unlink: false,
     };
     let kinds: &[Kind] = &[Kind::Send, Kind::Local];
     for &kind in kinds {
@@ -123,6 +124,9 @@ fn scenarios(thorough: bool) -> Vec<Sc> {
         // a stopper, a drainer and a killer race: whichever lands first, nothing starts after kill() returned
         v.push(base(kind, Variant::Plain, Site::Handle, P::Awaits, Closer::StopDrainKill, 2, false));
         v.push(base(kind, Variant::Plain, Site::PostStop, P::Awaits, Closer::StopDrainKill, 1, false));
+        // a draining actor still honours stop and supervision: drain, then stop / a supervision event, with a backlog
+        v.push(base(kind, Variant::Plain, Site::Handle, P::Awaits, Closer::DrainThenStop, 2, false));
+        v.push(base(kind, Variant::Plain, Site::Handle, P::Awaits, Closer::Drain, 2, true));
         // supervision events are handled before messages
         v.push(base(kind, Variant::Plain, Site::Handle, P::Awaits, Closer::None, 2, true));
         v.push(base(kind, Variant::Plain, Site::Handle, P::SleepsMs, Closer::Stop(None), 2, true));
